@@ -132,7 +132,7 @@ func cmdCheck(args []string) {
 	}
 	maxWorkers := 6
 	if tier == "thorough" {
-		maxWorkers = 12
+		maxWorkers = 8 // each worker races up to three solver processes; 16 cores
 	}
 	if w := os.Getenv("VSYM_WORKERS"); w != "" {
 		fmt.Sscanf(w, "%d", &maxWorkers)
